@@ -4,6 +4,7 @@ CONSTANTS
   MaxOps = 5
   Cap = 2
   RingSize = 2
+  STRICT_REMOVE = FALSE
   WatchFile = TRUE
 INVARIANTS InOrder Correlated NoLoss
 CHECK_DEADLOCK FALSE
